@@ -387,4 +387,7 @@ pub enum ByzShape {
 pub struct Fault {
     pub trig: Trigger,
     pub kind: FaultKind,
+    /// Station / slave / user faults fire this long after their trigger (wire faults: ignored).
+    #[serde(default)]
+    pub delay_us: u64,
 }
